@@ -208,6 +208,10 @@ def main():
         if not all(sl.tree_ok(t, sep) for t in train_trees):
             continue
         style = 'padded' if sep[0] == ' ' and rng.random() < 0.7 else 'compact'
+        if k % 5 == 4 and not any(x is not None and ' ' in x for x in sep):
+            # inside a word the tokens are joined BY their separators (h_e/l_o;eword: a syllable boundary is the syllable
+            # separator alone): a tagged text like any other for the levels' tokenization
+            style = 'joined-inner'
         if rng.random() < 0.6:
             test_trees = train_trees
         else:
@@ -221,6 +225,7 @@ def main():
         thr = Fraction(rng.randint(0, 8), 8) if rng.random() < 0.7 else Fraction(rng.randint(0, 1000), 1000)
         pwb = rng.choice([None, None, Fraction(0), Fraction(1, 8), Fraction(1, 4), Fraction(1, 2), Fraction(1)])
         blanks = [(rng.randint(0, len(train_trees)), rng.choice(['', ' ', '\n', '  \t'])) for _ in range(rng.randint(1, 3))] if k % 4 == 1 else []
+        ck.count('style:' + style)
         cases.append(make_case(train_trees, sep, style, level, test_units, kind, thr, pwb,
                                'trees-%s-%s%s' % (fam, level, '-blank-lines' if blanks else ''), blanks))
     for c in cases:
@@ -230,7 +235,7 @@ def main():
     nre, problems = ck.coq_recheck()
     finish_proof_failures(ck, failures + problems)
     return ck.finish(
-        rule='%d random tagged training corpora (trees over single- and multi-character units, 5 separator triples, compact/padded) x test text from the same or other trees '
+        rule='%d random tagged training corpora (trees over single- and multi-character units, 5 separator triples, compact/padded, or syllables and phones joined by their separators inside the words) x test text from the same or other trees '
              'x type in gold/phrasal/lexical x threshold k/8 x pwb in {None,0,1/8,1/4,1/2,1} x unit level; summary attributes compared entry by entry with the model and with direct counts; '
              'decisions with exact margin < 1e-9 skipped. Non-trivial = some boundary placed or an error.' % n,
         assumptions=['float probabilities agree with exact rationals on decisions whose margin is >= 1e-9'])
